@@ -70,7 +70,229 @@ def fam_rand_arg(case):
     return fails
 
 
-FAMILIES = {"labels": fam_labels, "rand_arg": fam_rand_arg}
+
+
+def _mk_multi(ml=NAN):
+    from skactiveml.base import MultiAnnotatorPoolQueryStrategy
+
+    class _Probe(MultiAnnotatorPoolQueryStrategy):
+        def query(self, *a, **k):
+            raise NotImplementedError
+    o = _Probe(missing_label=ml, random_state=0)
+    o.missing_label_ = ml
+    return o
+
+
+def fam_transform_cand_annot(case):
+    """MultiAnnotatorPoolQueryStrategy._transform_cand_annot on the concrete (candidates, annotators, y): boolean mask true exactly at the
+    available pairs"""
+    y = _labels_from_tokens(case["y"], case["missing"])
+    n, na = y.shape
+    X = np.arange(2.0 * n).reshape(n, 2)
+    cand = None if case["cand"] is None else np.array(case["cand"], dtype=int if case["cmode"] == "idx" else float)
+    ann = None if case["ann"] is None else np.array(case["ann"], dtype=int if case["amode"] == "idx" else bool)
+    if case["cmode"] == "idx" and (len(set(cand.tolist())) != len(cand) or (len(cand) and (cand.min() < 0 or cand.max() >= n))):
+        return []
+    if case["amode"] == "idx" and len(ann) and (ann.min() < 0 or ann.max() >= na):
+        return []
+    Xc, mp, A = _mk_multi()._transform_cand_annot(cand, ann, X, y)
+    A = np.asarray(A)
+    if A.dtype != bool:
+        return [{"sig": case["sig"], "detail": f"A_cand has dtype {A.dtype} (candidates {case['cand']}, annotators {case['ann']})"}]
+    rows = list(range(n)) if cand is None else (cand.tolist() if case["cmode"] == "idx" else list(range(len(cand))))
+    if cand is None and ann is None:
+        rows = [i for i in range(n) if np.isnan(y[i]).any()]
+    exp = np.zeros((len(rows), na), dtype=bool)
+    for r, i in enumerate(rows):
+        for j in range(na):
+            if ann is None:
+                exp[r, j] = np.isnan(y[i, j]) if cand is None else True
+            elif case["amode"] == "idx":
+                exp[r, j] = j in ann.tolist()
+            else:
+                exp[r, j] = bool(ann[r, j])
+    if A.shape != exp.shape or not np.array_equal(A, exp):
+        return [{"sig": case["sig"], "detail": f"A_cand = {A.astype(int).tolist()}, expected {exp.astype(int).tolist()} (y missing {np.isnan(y).astype(int).tolist()}, "
+                                               f"candidates {case['cand']}, annotators {case['ann']})"}]
+    if case["cmode"] != "rows" and (mp is None or np.asarray(mp).tolist() != rows):
+        return [{"sig": case["sig"], "detail": f"mapping {None if mp is None else np.asarray(mp).tolist()}, expected {rows}"}]
+    return []
+
+
+def fam_label_encoder(case):
+    from skactiveml.utils import ExtLabelEncoder
+    fails = []
+    if case["fn"] == "transform":
+        y = _labels_from_tokens(case["y"], case["missing"])
+        classes = sorted({v for v in y.tolist() if v == v}) or [0.0]
+        le = ExtLabelEncoder(classes=classes, missing_label=NAN).fit(np.array(classes))
+        enc = np.asarray(le.transform(y))
+        exp = [-1 if v != v else classes.index(v) for v in y.tolist()]
+        if enc.dtype.kind != "i" or enc.tolist() != exp:
+            fails.append({"sig": case["sig"], "detail": f"transform({y.tolist()}) = {enc.tolist()} ({enc.dtype}), expected {exp}"})
+    else:
+        codes = np.array(case["codes"], dtype=int)
+        K = max(int(codes.max()) + 1 if len(codes) else 1, 1)
+        if len(codes) and codes.min() < -1:
+            return []
+        classes = [float(10 * (c + 1)) for c in range(K)]
+        le = ExtLabelEncoder(classes=classes, missing_label=NAN).fit(np.array(classes))
+        dec = np.asarray(le.inverse_transform(codes), dtype=float)
+        exp = [NAN if c == -1 else classes[c] for c in codes.tolist()]
+        if not np.array_equal(dec, np.array(exp, dtype=float), equal_nan=True):
+            fails.append({"sig": case["sig"], "detail": f"inverse_transform({codes.tolist()}) = {dec.tolist()}, expected {exp}"})
+    return fails
+
+
+def fam_class_prior(case):
+    from skactiveml.utils._validation import check_class_prior
+    K = int(case["K"])
+    cp = case["cp"] if case["scalar"] else np.array(case["cp"], dtype=float)
+    try:
+        r = np.asarray(check_class_prior(cp, K), dtype=float)
+    except Exception:
+        return []
+    ok = r.shape == (K,) and np.all(np.isfinite(r)) and np.all(r >= 0) and (not case["scalar"] or np.all(r == cp))
+    return [] if ok else [{"sig": case["sig"], "detail": f"check_class_prior({case['cp']}, {K}) = {r.tolist()}"}]
+
+
+def fam_predict_proba(case):
+    from skactiveml.base import ClassFrequencyEstimator
+    F = np.array(case["F"], dtype=float).reshape(case["n"], case["K"])
+    prior = np.array(case["prior"], dtype=float)
+
+    class _Stub(ClassFrequencyEstimator):
+        def fit(self, X, y, sample_weight=None):
+            return self
+
+        def predict_freq(self, X):
+            return F.copy()
+    c = _Stub(classes=list(range(case["K"])))
+    c.classes_ = np.arange(case["K"])
+    c.class_prior_ = prior
+    P = np.asarray(c.predict_proba(np.zeros((case["n"], 1))))
+    P0 = F + prior
+    s_ = P0.sum(axis=1)
+    exp = np.where(s_[:, None] > 0, P0 / np.where(s_ > 0, s_, 1)[:, None], 1.0 / case["K"])
+    if P.shape != exp.shape or not np.allclose(P, exp, atol=1e-12) or np.any(P < 0) or np.any(P > 1 + 1e-12) or not np.all(np.isfinite(P)):
+        return [{"sig": case["sig"], "detail": f"predict_proba = {np.round(P, 6).tolist()} for freq {F.tolist()} + prior {prior.tolist()}, expected {np.round(exp, 6).tolist()}"}]
+    return []
+
+
+FAMILIES = {"labels": fam_labels, "rand_arg": fam_rand_arg, "transform_cand_annot": fam_transform_cand_annot, "label_encoder": fam_label_encoder,
+            "class_prior": fam_class_prior, "predict_proba": fam_predict_proba}
+
+
+def fam_index_wrapper(case):
+    """IndexClassifierWrapper.fit / partial_fit on a concrete wrapper state with a recording stub classifier: the view afterwards, the data
+    of the last (partial) fit and the base copies are compared with 'keep(start) ++ new' computed independently"""
+    import copy
+    from sklearn.base import BaseEstimator
+    from skactiveml.pool.utils import IndexClassifierWrapper
+    LOG = []
+
+    class Rec(BaseEstimator):
+        def __init__(self, tag=0):
+            self.tag = tag
+
+        def fit(self, X, y, sample_weight=None):
+            self.classes_ = [0]
+            self.seen_ = [("fit", np.asarray(X)[:, 0].tolist(), list(np.asarray(y, dtype=float).tolist()), None if sample_weight is None else np.asarray(sample_weight, dtype=float).tolist())]
+            LOG.append((id(self), "fit"))
+            return self
+
+        def partial_fit(self, X, y, sample_weight=None):
+            self.classes_ = [0]
+            self.seen_ = list(getattr(self, "seen_", [])) + [("partial_fit", np.asarray(X)[:, 0].tolist(), list(np.asarray(y, dtype=float).tolist()),
+                                                              None if sample_weight is None else np.asarray(sample_weight, dtype=float).tolist())]
+            LOG.append((id(self), "partial_fit"))
+            return self
+    N = case["N"]
+    tokens = {}
+    lab = lambda t: tokens.setdefault(t, float(len(tokens)))
+    X = np.arange(float(N)).reshape(N, 1)
+    own_y = np.array([lab(t) for t in case["own_y"]], dtype=float)
+    own_w = None if case["own_w"] is None else np.array(case["own_w"], dtype=float)
+    if own_w is not None and np.isnan(own_w).any():
+        return []
+    w = object.__new__(IndexClassifierWrapper)
+    w.clf = Rec()
+    w.X, w.y, w.sample_weight = X, own_y, own_w
+    w.missing_label_ = NAN
+    w.enforce_unique_samples = "check_unique" if case["unique"] else False
+    w.use_partial_fit = bool(case["native"])
+    w.use_speed_up = False
+    stt = case["state"]
+    arr = lambda v, f=float: None if v is None else np.array(v, dtype=f)
+    w.clf_ = Rec(tag=1)
+    w.clf_.classes_ = [0]
+    w.clf_.seen_ = [("prior", [], [], None)]
+    w.base_clf_ = Rec(tag=2)
+    w.base_clf_.classes_ = [0]
+    w.base_clf_.seen_ = [("base", [], [], None)]
+    if not case["native"]:
+        w.idx_ = arr(stt["idx_"], int)
+        w.y_ = np.array([lab(t) for t in stt["y_"]], dtype=float)
+        w.sample_weight_ = arr(stt["sample_weight_"])
+        w.base_idx_ = arr(stt["base_idx_"], int)
+        w.base_y_ = np.array([lab(t) for t in stt["base_y_"]], dtype=float)
+        w.base_sample_weight_ = arr(stt["base_sample_weight_"])
+        for v in (w.sample_weight_, w.base_sample_weight_):
+            if v is not None and np.isnan(v).any():
+                return []
+    add_idx = np.array(case["add_idx"], dtype=int)
+    add_y = None if case["add_y"] is None else np.array([lab(t) for t in case["add_y"]], dtype=float)
+    add_w = arr(case["add_w"])
+    if add_w is not None and np.isnan(add_w).any():
+        return []
+    before = copy.deepcopy({k: getattr(w, k, None) for k in ("idx_", "y_", "sample_weight_", "base_idx_", "base_y_", "base_sample_weight_")})
+    base_seen_before = list(w.base_clf_.seen_)
+    same = lambda a_, b_: (a_ is None and b_ is None) or (a_ is not None and b_ is not None and np.array_equal(np.asarray(a_, dtype=float), np.asarray(b_, dtype=float), equal_nan=True))
+    new_y = own_y[add_idx] if add_y is None else add_y
+    new_w = add_w if add_w is not None else (None if own_w is None else own_w[add_idx])
+    out = []
+    bad = lambda msg: out.append({"sig": case["sig"], "detail": msg + f" (op {case['op']}, flags unique={case['unique']} native={case['native']} "
+                                                                     f"use_base={case.get('use_base')} set_base={case.get('set_base')}, add_idx {add_idx.tolist()})"})
+    if case["op"] == "fit":
+        w.fit(add_idx, y=add_y, sample_weight=add_w, set_base_clf=case["set_base"])
+        exp = (add_idx, new_y, new_w)
+    else:
+        w.partial_fit(add_idx, y=add_y, sample_weight=add_w, use_base_clf=case["use_base"], set_base_clf=case["set_base"])
+        if case["native"]:
+            last = w.clf_.seen_[-1]
+            if last[0] != "partial_fit" or last[1] != X[add_idx][:, 0].tolist() or not same(last[2], new_y) or not same(last[3], new_w):
+                bad(f"native partial_fit received {last}")
+            prefix = w.clf_.seen_[:-1]
+            want_prefix = base_seen_before if case["use_base"] else [("prior", [], [], None)]
+            if prefix != want_prefix:
+                bad(f"the updated classifier has history {prefix}, expected {want_prefix}")
+            if not case["set_base"] and w.base_clf_.seen_ != base_seen_before:
+                bad(f"the base classifier changed: {w.base_clf_.seen_}")
+            if case["set_base"] and (w.base_clf_ is w.clf_ or w.base_clf_.seen_ != w.clf_.seen_):
+                bad("base_clf_ is not a copy of the updated classifier")
+            return out
+        s_idx, s_y, s_w = (before["base_idx_"], before["base_y_"], before["base_sample_weight_"]) if case["use_base"] else \
+            (before["idx_"], before["y_"], before["sample_weight_"])
+        keep = [p_ for p_ in range(len(s_idx)) if not case["unique"] or s_idx[p_] not in add_idx.tolist()]
+        exp = (np.concatenate([s_idx[keep], add_idx]), np.concatenate([s_y[keep], new_y]),
+               None if new_w is None else np.concatenate([s_w[keep], new_w]))
+    for nm, e_ in zip(("idx_", "y_", "sample_weight_"), exp):
+        if not same(getattr(w, nm), e_):
+            bad(f"{nm} = {None if getattr(w, nm) is None else np.asarray(getattr(w, nm)).tolist()}, expected {None if e_ is None else np.asarray(e_).tolist()}")
+    last = w.clf_.seen_[-1]
+    if last[0] != "fit" or last[1] != X[exp[0]][:, 0].tolist() or not same(last[2], exp[1]) or not same(last[3], exp[2]):
+        bad(f"the classifier was last fitted on {last}, expected X{np.asarray(exp[0]).tolist()}, y {np.asarray(exp[1]).tolist()}, w {None if exp[2] is None else np.asarray(exp[2]).tolist()}")
+    for nm, e_ in zip(("base_idx_", "base_y_", "base_sample_weight_"), exp if case["set_base"] else (before["base_idx_"], before["base_y_"], before["base_sample_weight_"])):
+        if not same(getattr(w, nm), e_):
+            bad(f"{nm} = {None if getattr(w, nm) is None else np.asarray(getattr(w, nm)).tolist()}, expected {None if e_ is None else np.asarray(e_).tolist()}")
+    if case["set_base"] and (w.base_clf_ is w.clf_ or w.base_clf_.seen_ != w.clf_.seen_):
+        bad("base_clf_ is not a copy of the classifier after the fit")
+    if not case["set_base"] and w.base_clf_.seen_ != base_seen_before:
+        bad("the base classifier changed")
+    return out
+
+
+FAMILIES["index_wrapper"] = fam_index_wrapper
 
 
 def run_case(prop, case):
